@@ -114,6 +114,28 @@ CHECKS = {
         technique="deterministic simulation: seeded restricted-stage evaluations inside histories, snapshot and twin-history oracles",
         design_ref="DESIGN.md 4.8, 7 (C15)",
     ),
+    "C14": dict(
+        engine="P",
+        category="exploration",
+        text=("Programs placed in packages of depth 1-6 with the accepted prefix at a seeded depth, 0-40 decoy accepted "
+              "packages and non-accepted look-alike packages; evaluate-edit-restart-evaluate histories with edits on both "
+              "sides of the boundary: signatures unchanged by non-accepted edits, changed by edits inside the static content "
+              "of the kept function, accepted code always evaluated, data functions of non-accepted modules refused naming the module."),
+        note=PIPE_NOTE + " The must-change rule is a lower bound (static content of the kept function), so it cannot alarm on correct code.",
+        technique="deterministic simulation: seeded package-shape configurations x edit/restart histories, signature capture through a wrapping Store",
+        design_ref="DESIGN.md 7 (C14)",
+    ),
+    "C18": dict(
+        engine="P",
+        category="exploration",
+        text=("Evaluations with dds_export_graph (real pydotplus + graphviz) inside histories, each history also run as its "
+              "twin without export: results, logs and signatures identical; the dot text parsed back is compared with a "
+              "reachability model built from the generator's IR (nodes, solid, dashed, dotted edges, acyclicity). The graph "
+              "clause is a function of the program - programs are sampled; non-perturbation is the twin-history oracle."),
+        note=PIPE_NOTE + " One edge per ordered pair is assumed (a direct dependency takes precedence over a dashed one).",
+        technique="deterministic simulation: twin histories with and without graph export, IR reachability model of the exported graph",
+        design_ref="DESIGN.md 7 (C18)",
+    ),
     "C12": dict(
         engine="K",
         category="exploration",
